@@ -146,7 +146,7 @@ func c09Cases(c runCfg) ([]*scratch.Pkg, []string, map[string]interface{}) {
 					sc.Items.Nullable = false
 				}
 				// (a $ref to a NULLABLE primitive component does not compile: a C01 cell, D35)
-				if rng.Intn(4) == 0 && !sc.Nullable && sc.Format != "date-time" && !(sc.Items != nil && sc.Items.Format == "date-time") {
+				if rng.Intn(4) == 0 && !sc.Nullable {
 					cn := fmt.Sprintf("S%d%d", oi, k)
 					sp.CompSchemas = append(sp.CompSchemas, dialect.Prop{Name: cn, Schema: sc})
 					sc = &dialect.Schema{Ref: cn}
